@@ -299,6 +299,11 @@ class Trace:
                         ran = kv_field(l, "ran") == "1"
                         if ran:
                             self.stats["ticks"] += 1
+                        # buffered events are flushed by the next replication tick (independent ones at once): the recipients
+                        # that are authorized at that moment must be sent the event
+                        for em_ in emitted.values():
+                            if "flush_auth" not in em_ and (ran or em_["ty"] == "SEI"):
+                                em_["flush_auth"] = set(c_ for c_ in authorized if c_ in connected)
                     elif f[0] == "view":
                         c = int(f[1])
                         v = parse_ents(f[2])
@@ -582,7 +587,7 @@ class Trace:
                     reliable_plain = em["ty"] in ("SE0", "SEI") or (em["ty"] == "ST" and em["ent"] is None)
                     if intended and reliable_plain and (c in authorized or em["ty"] == "SEI") and n != 1:
                         # a client authorized only after the event was flushed legitimately misses it
-                        if (c, sq) in stamps or em["ty"] == "SEI":
+                        if (c, sq) in stamps or em["ty"] == "SEI" or c in em.get("flush_auth", ()):
                             self.add("C05", last, "event %d (%s, mode %s) was delivered %d times to client %d, expected exactly once" % (sq, em["ty"], m, n, c))
                     if not intended and n != 0:
                         self.add("C05", last, "event %d (mode %s) reached client %d which is not a recipient" % (sq, m, c))
